@@ -460,29 +460,74 @@ def tuOnTrigNext (rec : Rec) (x : TU) : TU :=
     let x2 := tuRequestStop rec x1
     { x2 with st := { x2.st with ready := true } }
 
+/-- the first next() starts next(trigger) with the stream's own stop token -/
+def takeTrigStart (rec : Rec) (x1 : TU) : TU :=
+  if x1.st.trigStarted then x1
+  else
+    let r := rec (.next x1.st.src) x1.t
+    let x := { x1 with t := r.1, outs := x1.outs ++ r.2.1, st := { x1.st with trigStarted := true } }
+    match r.2.2 with
+    | some (.next _) => tuOnTrigNext rec x
+    | _ => { x with st := { x.st with trigRunning := true } }
+
+/-- start next(source) with the stream's own stop token -/
+def takeSrcStart (rec : Rec) (x3 : TU) : TU :=
+  let r := rec (.next x3.st.src) x3.s
+  let x4 := { x3 with s := r.1, outs := x3.outs ++ r.2.1 }
+  match r.2.2 with
+  | some (.next o) => tuOnSrcNext rec x4 o
+  | _ => { x4 with st := { x4.st with srcRunning := true } }
+
+/-- next_sender::_op::start() -/
+def takeNext (rec : Rec) (stopped : Bool) (x0 : TU) : TU :=
+  let x2 := takeTrigStart rec { x0 with st := { x0.st with ph := .nexting } }
+  -- stopCallback_ on the receiver's token
+  let x3 := if stopped then tuRequestStop rec x2 else x2
+  takeSrcStart rec x3
+
+/-- the rest of cleanup_sender::_op::start() after cleanup(source) was started -/
+def takeCleanupTail (rec : Rec) (x2 : TU) : TU :=
+  if x2.st.ready then tuStartTrigCleanup rec x2
+  else
+    -- cleanupOperation_ = this; request_stop(); exchange(cleanupReady_, true)
+    let x3 := tuRequestStop rec x2
+    if x3.st.ready then tuStartTrigCleanup rec x3
+    else { x3 with st := { x3.st with ready := true } }
+
+/-- cleanup_sender::_op::start() -/
+def takeCleanup (rec : Rec) (x0 : TU) : TU :=
+  let r := rec .cleanup x0.s
+  let x1 := { x0 with s := r.1, outs := x0.outs ++ r.2.1,
+                      st := { x0.st with ph := .cleaning, srcOpCtor := x0.st.srcOpCtor + 1 } }
+  let x2 := match r.2.2 with
+    | some (.clean e) => tuJoinSrc x1 e
+    | _ => x1
+  takeCleanupTail rec x2
+
+/-- an external completion somewhere below: the source side first … -/
+def takeEvSrc (rec : Rec) (ev : Call) (x0 : TU) : TU :=
+  let r := rec ev x0.s
+  let x1 := { x0 with s := r.1, outs := x0.outs ++ r.2.1 }
+  match r.2.2 with
+  | some (.next o) => tuOnSrcNext rec x1 o
+  | some (.clean e) => tuJoinSrc x1 e
+  | none => x1
+
+/-- … then the trigger side -/
+def takeEvTrig (rec : Rec) (ev : Call) (x2 : TU) : TU :=
+  let r2 := rec ev x2.t
+  let x3 := { x2 with t := r2.1, outs := x2.outs ++ r2.2.1 }
+  match r2.2.2 with
+  | some (.next _) => tuOnTrigNext rec x3
+  | some (.clean e) => tuJoinTrig x3 e
+  | none => x3
+
 def takeStep (rec : Rec) (c : Call) (s t : Op) (st : TakeSt) : Res :=
   let x0 : TU := ⟨s, t, st, [], none⟩
   match c with
   | .next stopped =>
     match st.ph with
-    | .idle =>
-      let x1 := { x0 with st := { st with ph := .nexting } }
-      -- the first next() starts next(trigger) with the stream's own stop token
-      let x2 :=
-        if st.trigStarted then x1
-        else
-          let r := rec (.next x1.st.src) x1.t
-          let x := { x1 with t := r.1, outs := x1.outs ++ r.2.1, st := { x1.st with trigStarted := true } }
-          match r.2.2 with
-          | some (.next _) => tuOnTrigNext rec x
-          | _ => { x with st := { x.st with trigRunning := true } }
-      -- stopCallback_ on the receiver's token
-      let x3 := if stopped then tuRequestStop rec x2 else x2
-      let r := rec (.next x3.st.src) x3.s
-      let x4 := { x3 with s := r.1, outs := x3.outs ++ r.2.1 }
-      match r.2.2 with
-      | some (.next o) => (tuOnSrcNext rec x4 o).res
-      | _ => ({ x4 with st := { x4.st with srcRunning := true } }).res
+    | .idle => (takeNext rec stopped x0).res
     | _ => x0.res
   | .stop =>
     match st.ph with
@@ -490,32 +535,9 @@ def takeStep (rec : Rec) (c : Call) (s t : Op) (st : TakeSt) : Res :=
     | _ => x0.res
   | .cleanup =>
     match st.ph with
-    | .idle =>
-      let r := rec .cleanup s
-      let x1 := { x0 with s := r.1, outs := r.2.1, st := { st with ph := .cleaning, srcOpCtor := st.srcOpCtor + 1 } }
-      let x2 := match r.2.2 with
-        | some (.clean e) => tuJoinSrc x1 e
-        | _ => x1
-      if x2.st.ready then (tuStartTrigCleanup rec x2).res
-      else
-        -- cleanupOperation_ = this; request_stop(); exchange(cleanupReady_, true)
-        let x3 := tuRequestStop rec x2
-        if x3.st.ready then (tuStartTrigCleanup rec x3).res
-        else ({ x3 with st := { x3.st with ready := true } }).res
+    | .idle => (takeCleanup rec x0).res
     | _ => x0.res
-  | ev =>
-    let r := rec ev s
-    let x1 := { x0 with s := r.1, outs := r.2.1 }
-    let x2 := match r.2.2 with
-      | some (.next o) => tuOnSrcNext rec x1 o
-      | some (.clean e) => tuJoinSrc x1 e
-      | none => x1
-    let r2 := rec ev x2.t
-    let x3 := { x2 with t := r2.1, outs := x2.outs ++ r2.2.1 }
-    match r2.2.2 with
-    | some (.next _) => (tuOnTrigNext rec x3).res
-    | some (.clean e) => (tuJoinTrig x3 e).res
-    | none => x3.res
+  | ev => (takeEvTrig rec ev (takeEvSrc rec ev x0)).res
 
 /-! ### the evaluator -/
 
